@@ -247,5 +247,13 @@ def rand_scaffolds_over(rng, recs, nsc=3, maxrows=6, zero_strand=0.1, big_gaps=N
                 a = rng.randint(1, n); b = rng.randint(a, n)
                 st = rng.choice([1, -1]) if rng.random() > zero_strand else 0
                 rows.append(conv.jfrag(0, r["name"], a, b, st))
+        # LINE-ALIGNED gaps: with some probability a gap row is sized so that it ends exactly on a boundary of the writer's 60-column output lines
+        # after filling at least one whole line (a writer that treats "exactly one full line left" differently from "more than one" shows only there)
+        if rng.random() < 0.5:
+            col = 0
+            for k, r_ in enumerate(rows):
+                if r_["t"] == "G" and k + 1 < len(rows) and rng.random() < 0.7:
+                    r_["len"] = (60 - col) % 60 + 60 * rng.randint(1, 3) if col else 60 * rng.randint(1, 4)
+                col = (col + (r_["len"] if r_["t"] == "G" else r_["end"] - r_["start"] + 1)) % 60
         scs.append(conv.jscaffold(f"out{j+1}", rows))
     return scs
